@@ -15,21 +15,26 @@ def deep_size(o, seen=None):
 
 def endless_streams(p):
     total = p.get("mib", 1) * (1 << 20); bad = []; ev = 0; pats = 0
-    hd = [("all flags", b"\x7e" * 4096), ("flag + junk", b"\x7e\xa0\x07\x01" * 1024), ("never-ending frame", b"\xa0\x00\x01\x55" * 1024), ("escape fill", b"\x7e\xa0\x05" + b"\x7d" * 4093), ("header + flag fill", b"\x7e\xa0\x02\x21\x13" + b"\x7e" * 4091)]
+    hd = [("all flags", b"\x7e" * 4096), ("flag + junk", b"\x7e\xa0\x07\x01" * 1024), ("never-ending frame", b"\xa0\x00\x01\x55" * 1024), ("escape fill", b"\x7e\xa0\x05" + b"\x7d" * 4093), ("header + flag fill", b"\x7e\xa0\x02\x21\x13" + b"\x7e" * 4091),
+          ("frame overrunning its length field, then flags only", b"\x7e" * 4096)]
+    once = {"frame overrunning its length field, then flags only": bytes.fromhex("7e" + "a00c0102011027a00201e7de" + "010203")}          # fed once, before the repeated pattern
     p1 = [("'/' without LF", b"/" + b"x" * 4095), ("ident then endless data lines", b"/ABC5\r\n" + b"1-0:1.8.0(1)\r\n" * 292), ("ident lines without end line", b"/ABC5xyz\r\n" * 409), ("random ascii", bytes(range(32, 127)) * 43)]
     for chunk_size in (1024, 65536):
         for cfg in ((False, False), (True, True)):
             for name, pat in hd:
                 r = hdlc.HdlcFrameReader(*cfg); fed = 0; pats += 1
+                if name in once: r.read(once[name])
                 stream = pat
                 while fed < total:
                     ch = (stream * (chunk_size // len(stream) + 1))[:chunk_size]; r.read(ch); fed += len(ch); ev += 1
+                    if ev % 16 == 0 and deep_size(r) > 40000 + chunk_size: break          # a growing reader also gets slower with every octet: stop at the first excess
                 sz = deep_size(r)
                 if sz > 40000 + chunk_size: bad.append({"reader": f"HDLC{cfg}", "pattern": name, "chunk": chunk_size, "fed": fed, "deep_size": sz})
         for name, pat in p1:
             r = dlde.ModeDReader(); fed = 0; pats += 1
             while fed < total:
                 ch = (pat * (chunk_size // len(pat) + 1))[:chunk_size]; r.read(ch); fed += len(ch); ev += 1
+                if ev % 16 == 0 and deep_size(r) > 40000 + chunk_size: break
             sz = deep_size(r)
             if sz > 40000 + chunk_size: bad.append({"reader": "P1", "pattern": name, "chunk": chunk_size, "fed": fed, "deep_size": sz})
     return {"name": "deep size of the reader after long streams", "bound": f"{p.get('mib', 1)} MiB per pattern, {pats} (reader, pattern, chunk size) combinations, limit 40000 + chunk size bytes",
